@@ -11,6 +11,7 @@ CONSTANTS
   MapRemoveDropsFirst = TRUE
   BugAppend = FALSE
   BugRemGuard = FALSE
+  BugOORDoubleRelease = FALSE
   Depth = 30
 INVARIANT Emit
 CHECK_DEADLOCK FALSE
